@@ -76,6 +76,8 @@ inline std::string gen_scenario(const unsigned char *data, size_t size, const st
   if (pf.c07) o += " c07=1";
   if (pf.addr && c.chance(1, 2)) o += " mixed=1";
   if (pf.addr) o += " cnamemod=" + std::to_string(1 + c.pick(3));
+  if (prop == "C08" && c.chance(1, 2)) o += " asoa=1";
+  if ((prop == "C10" || prop == "C13" || prop == "C01") && c.chance(1, 5)) o += " nogsn=1";
   { static const char *lk[] = {"b", "bf", "fb", "f"}; if (pf.addr || c.chance(1, 6)) o += std::string(" lookups=") + lk[c.pick(4)]; }
   o += "\n";
   unsigned nserv = 1 + c.pick(pf.failover ? 5 : 3);
